@@ -17,6 +17,7 @@ import (
 	"syscall"
 	"testing"
 	"time"
+	"unsafe"
 
 	"pgregory.net/rapid"
 	"verif/harness/wire"
@@ -77,13 +78,30 @@ func openCapture() (*capture, error) {
 
 func (c *capture) close() { syscall.Close(c.fd) }
 
-// collect returns the IP packets addressed to target:port seen until want packets arrived or the deadline passed.
+// drops reads the kernel's drop counter of the capture socket (PACKET_STATISTICS; reading resets it).
+func (c *capture) drops() int {
+	var st struct{ Packets, Drops uint32 }
+	l := uint32(unsafe.Sizeof(st))
+	const solPacket, packetStatistics = 263, 6
+	if _, _, e := syscall.Syscall6(syscall.SYS_GETSOCKOPT, uintptr(c.fd), solPacket, packetStatistics, uintptr(unsafe.Pointer(&st)), uintptr(unsafe.Pointer(&l)), 0); e != 0 {
+		return 0
+	}
+	return int(st.Drops)
+}
+
+// collect returns the IP packets addressed to target:port seen until want packets arrived, or no matching packet
+// has arrived for the quiet period 'wait' (the socket sees all loopback traffic of the machine, so the clock
+// that matters is the one since the last packet of our own), at most 30 s.
 func (c *capture) collect(target []byte, port int, want int, wait time.Duration) [][]byte {
 	var out [][]byte
 	buf := make([]byte, 70000)
-	deadline := time.Now().Add(wait)
+	hard := time.Now().Add(30 * time.Second)
+	lastOwn := time.Now()
 	quiet := 0
-	for time.Now().Before(deadline) {
+	for time.Now().Before(hard) {
+		if since := time.Since(lastOwn); since > wait || (len(out) >= want && since > 400*time.Millisecond) {
+			break
+		}
 		n, _, err := syscall.Recvfrom(c.fd, buf, 0)
 		if err != nil {
 			quiet++
@@ -102,6 +120,7 @@ func (c *capture) collect(target []byte, port int, want int, wait time.Duration)
 			continue
 		}
 		out = append(out, append([]byte{}, p...))
+		lastOwn = time.Now()
 	}
 	return out
 }
@@ -309,6 +328,7 @@ func runC16(c *c16Case) (v verdict, sig string, err error) {
 		return v, "not-queued", fmt.Errorf("%d of %d datagrams were queued for mirroring", mirrored, len(payloads))
 	}
 	pkts := cap.collect(c.Target, c.Port, mirrored, 3*time.Second)
+	capDrops := cap.drops()
 
 	// mirroring never changes what is published
 	a := append([]string{}, pubOn...)
@@ -357,6 +377,10 @@ func runC16(c *c16Case) (v verdict, sig string, err error) {
 	missing := 0
 	for _, n := range want {
 		missing += n
+	}
+	if (missing > 0 || len(pkts) != mirrored) && capDrops > 0 {
+		// the capture socket itself lost packets (it sees all loopback traffic of a busy machine): inconclusive
+		return v, "", fmt.Errorf("harness: the capture socket dropped %d packets, %d of %d mirrored datagrams seen", capDrops, len(pkts), mirrored)
 	}
 	if c.Flood > 0 {
 		// the mirror queue overflowed by construction: only what was queued can be re-emitted
